@@ -11,10 +11,51 @@ class SyncProp(core.Prop):
     nontrivial_labels = ()
     gen_args = {}
 
+    mc_share = 40      # one generated case in `mc_share` is a model-checker case
+
     def strategy(self, tier):
-        return syncgen.programs(kinds=self.kinds, **self.gen_args)
+        from hypothesis import strategies as st
+        real = syncgen.programs(kinds=self.kinds, **self.gen_args)
+        # the model-checker half of the statements ("under every interleaving explored by the model checker"): small programs of
+        # the same object kind, explored by simgrid-mc WITHOUT reduction (all interleavings) when small enough, else with dpor
+        mc = syncgen.programs(kinds=tuple(self.kinds) + ("tick",), mc=True, max_actors=3, max_ops=5, max_mutex=2, max_sem=1, max_cond=1,
+                              max_bar=1, profile="contention").map(lambda p: {"mc": True, "program": p})
+        return st.one_of([real] * (self.mc_share - 1) + [mc])
+
+    def check_mc(self, case):
+        from .. import mcrun, refsem
+        oc = core.Outcome()
+        sc = case["program"]
+        oc.labels.append("model-checker-case")
+        try:
+            ex = refsem.explore(sc, "mc", max_states=60000)
+        except refsem.TooBig:
+            oc.invalid = True
+            return oc
+        red = "none" if ex.npaths <= 300 else "dpor"
+        res = mcrun.run(sc, red, cpu=40, wall=1200)
+        if res.r.wall_exceeded or res.load_failure:
+            raise core.Inconclusive()
+        if res.no_transition:
+            return oc
+        oc.labels.append("mc-" + red)
+        if res.crashed:
+            oc.bad("mc-run-crashed:" + red, "simgrid-mc (reduction %s) did not end normally on a %s program (rc=%s):\n%s"
+                   % (red, "/".join(self.kinds), res.rc, res.tail()))
+            return oc
+        ref = ex.complete_outcomes()
+        if res.outcomes != ref:
+            oc.bad("mc-outcomes-differ:" + red, "under simgrid-mc (reduction %s) the program reaches the outcomes %s, the reference semantics "
+                   "(FIFO objects, all interleavings) reaches %s" % (red, sorted(res.outcomes)[:4], sorted(ref)[:4]))
+        if res.deadlock != bool(ex.deadlocks):
+            oc.bad("mc-deadlock-verdict:" + red, "under simgrid-mc (reduction %s) deadlock reported=%s, the reference has a reachable "
+                   "deadlock=%s" % (red, res.deadlock, bool(ex.deadlocks)))
+        oc.nontrivial = len(ref) >= 2 or bool(ex.deadlocks)
+        return oc
 
     def check(self, case):
+        if case.get("mc"):
+            return self.check_mc(case)
         oc = core.Outcome()
         log = s4u.run(case, cpu=20, wall=240)
         if log.wall_exceeded:
@@ -52,7 +93,8 @@ class C04(SyncProp):
             "queue) must match; an operation that returns without grant, or never returns although granted, is a violation. "
             "Non-trivial: some locker blocks, or a recursive mutex is acquired through try_lock.")
     assumptions = ["sequential runs (contexts/nthreads:1): the order of request records is the order in which the kernel handles them",
-                   "model-checker and sthread executions of the same programs are covered by C14/C38, not here"]
+                   "one case in 40 is explored by simgrid-mc (reduction none when <= 300 traces, else dpor) and compared with the reference "
+                   "explorer vf/refsem.py; pthread/sthread executions are not exercised"]
 
 
 PROP = C04()
